@@ -221,6 +221,14 @@ def addMissing (all : List Walk) : List Addr → List Walk
   | [] => all
   | a :: t => addMissing (if all.any (fun w => w.addr == a) then all else all ++ [⟨a, none, false, none⟩]) t
 
+/-- The node shuts down and starts again with the same key and socket: a fresh Network filled from
+    `Network.snapshot()` / `load_snapshot()` — the preferred address of every verified peer, recorded WITHOUT introducer,
+    service or style — fresh overlays (WAN estimate = LAN estimate again, default max_peers, empty blacklist) and a fresh
+    my_peer (Lamport clock 0).  Nobody is verified any more. -/
+def Node.restart (n : Node) : Node :=
+  { key := n.key, myLan := n.myLan, machineIp := n.machineIp, pref := n.pref,
+    all := addMissing [] ((n.peers.map (·.v4)).filter (fun a => a != Addr.zero)) }
+
 /-- Network.add_verified_peer (blacklist_mids = [own mid]).  For a known key the stored object
     is the one the handler mutated, so its fields are written back. -/
 def Node.addVerified (n : Node) (p : PeerRec) : Node :=
@@ -440,6 +448,11 @@ def World.relan (w : World) (i : Nat) (box : Nat) (lan wan : Addr) : World :=
     { w with hosts := w.hosts.set i { h with lan := lan, box := box, wan := wan, sent := [] },
              nodes := w.nodes.set i { n with machineIp := lan.ip } }
   | _, _ => w
+
+def World.restart (w : World) (i : Nat) : World :=
+  match w.nodes[i]? with
+  | none => w
+  | some n => { w with nodes := w.nodes.set i n.restart }
 
 def World.removePeerAt (w : World) (i key : Nat) : World :=
   match w.nodes[i]? with
